@@ -128,6 +128,17 @@ def step (pinned : Bool) (st : St) : Op → St
           let st := st.resetBoth u
           if pinned then st else st.resetDependants u
         else st
+  | .schema (.setAlias u a false) =>
+    -- `RSModel::SetAliasFor(target, name, substitue = false)`: pinned code forwards to the core only;
+    -- repaired code resets the dependants collected before the rename
+    if pinned || !st.sch.contains u then { st with sch := Schema.step false st.sch (.setAlias u a false) }
+    else
+      let sch := st.sch.ensureGraph
+      let deps := Graph.expandOutputs sch.graph [u]
+      let sch' := Schema.step false sch (.setAlias u a false)
+      -- the core refuses a rename to the same alias: nothing happens then
+      if (st.sch.at u).map (·.alias) == some a then { st with sch := sch' }
+      else ({ st with sch := sch' } : St).resetItems deps u
   | .schema op => { st with sch := Schema.step false st.sch op }
   | .addElem u =>
     if st.kindOf u != some .base then st
